@@ -89,6 +89,7 @@ def real_render(case, di, env=None, names=None, how="render", async_fns=False, a
         env, _ = make_env(case, names=names)
     log = []
     cache = {}
+    jast.FAULTS.clear()
     R = lambda n: (names or {}).get(n, n)
     data = {R(k): jast.to_py(v, case["objs"], log, cache, async_fns) for k, v in case["datas"][di - 1].items()}
     if async_iters:
@@ -112,10 +113,14 @@ def real_render(case, di, env=None, names=None, how="render", async_fns=False, a
         return {"out": out, "err": "", "log": log}
     except Exception as e:  # noqa
         name = type(e).__name__
-        for klass in type(e).__mro__:
-            if klass.__name__ in jast.ERRCLASS:
-                name = jast.ERRCLASS[klass.__name__]
-                break
+        if isinstance(e, jast.PrivateError):
+            # C38: the very exception object the data raised must come out
+            name = "Raised:" + e.fid if e is jast.FAULTS.get(e.fid) else "Raised-different-object:" + e.fid
+        else:
+            for klass in type(e).__mro__:
+                if klass.__name__ in jast.ERRCLASS:
+                    name = jast.ERRCLASS[klass.__name__]
+                    break
         return {"out": None, "err": name, "log": log, "exc": repr(e)[:300]}
 
 
